@@ -8,6 +8,8 @@
 //        8: info, and every second record is logged by a callable operand of the following statement
 //           (2*records records per thread: inner 2k, then outer 2k+1)
 //        9: info; the records of thread 0 are longer than a page
+//   mt heavy <o|e> <threads> <bigrecords> <megabytes> <seed> <build>
+//        thread 0 logs <bigrecords> records of <megabytes> MiB each while every other thread logs 1500 short ones
 #include "common.hpp"
 
 #include <nitro/log/attribute/message.hpp>
@@ -60,7 +62,7 @@ public:
     std::atomic<int> entries_after_park{ 0 };
     unsigned yield_every = 0;
 
-    RacyBuf() : data(1 << 22), pending(1 << 16)
+    explicit RacyBuf(std::size_t device = 1 << 22, std::size_t buffer = 1 << 16) : data(device), pending(buffer)
     {
     }
 
@@ -251,11 +253,84 @@ static std::string verdict(int n, int r, int mode, const std::string& out, bool 
            " order=" + (order ? "1" : "0");
 }
 
+static const int HEAVY_SMALL = 1500;
+
+static std::string heavy_text(int t, int k, std::size_t mb)
+{
+    // thread 0: [1, k+1, 7, payload of about mb MiB, 0]; the others: [t+1, k%250+1, k/250+8, payload 0..8, 0]
+    std::string r;
+    r.push_back(static_cast<char>(t + 1));
+    if (t == 0)
+    {
+        r.push_back(static_cast<char>(k + 1));
+        r.push_back(static_cast<char>(7));
+        r.append(mb * 1048576 - 3 + static_cast<std::size_t>((k * 37) % 61), static_cast<char>((k % 200) + 1));
+    }
+    else
+    {
+        r.push_back(static_cast<char>(k % 250 + 1));
+        r.push_back(static_cast<char>(k / 250 + 8));
+        r.append(static_cast<std::size_t>((t * 7 + k * 3) % 9), static_cast<char>(((t + k) % 200) + 1));
+    }
+    r.push_back('\0');
+    return r;
+}
+
+static std::string heavy_verdict(int n, int r, std::size_t mb, const std::string& out, bool concurrent)
+{
+    // walk the device contents record by record: each piece between NULs has to be the next record of its thread
+    std::vector<int> next(static_cast<std::size_t>(n), 0);
+    long torn = 0, dup = 0;
+    bool order = true;
+    std::size_t i = 0;
+    while (i < out.size())
+    {
+        std::size_t e = out.find('\0', i);
+        std::string piece = out.substr(i, e == std::string::npos ? std::string::npos : e - i + 1);
+        i = e == std::string::npos ? out.size() : e + 1;
+        int t = static_cast<unsigned char>(piece[0]) - 1;
+        bool whole = false;
+        if (t >= 0 && t < n && piece.size() >= 4)
+        {
+            int limit = t == 0 ? r : HEAVY_SMALL;
+            // which record of thread t is it?
+            int k = t == 0 ? static_cast<unsigned char>(piece[1]) - 1
+                           : (static_cast<unsigned char>(piece[2]) - 8) * 250 + static_cast<unsigned char>(piece[1]) - 1;
+            if (k >= 0 && k < limit && piece == heavy_text(t, k, mb))
+            {
+                whole = true;
+                if (k < next[static_cast<std::size_t>(t)])
+                {
+                    dup += 1;
+                    order = false;
+                }
+                else
+                {
+                    if (k > next[static_cast<std::size_t>(t)])
+                        order = false; // a record of this thread is missing before this one (counted as lost below)
+                    next[static_cast<std::size_t>(t)] = k + 1;
+                }
+            }
+        }
+        if (!whole)
+            torn++;
+    }
+    long lost = 0;
+    for (int t = 0; t < n; t++)
+        lost += (t == 0 ? r : HEAVY_SMALL) - next[static_cast<std::size_t>(t)];
+    return "records=" + std::to_string(r + (n - 1) * HEAVY_SMALL) + " concurrent=" + (concurrent ? "1" : "0") +
+           " torn=" + std::to_string(torn) + " lost=" + std::to_string(lost) + " dup=" + std::to_string(dup) +
+           " order=" + (order ? "1" : "0");
+}
+
 static std::string handle(const std::vector<std::string>& f)
 {
     bool use_out = f.at(1) == "o";
     std::ostream& os = use_out ? std::cout : std::cerr;
-    RacyBuf buf;
+    bool heavy = f.at(0) == "heavy";
+    std::size_t mb = heavy ? std::stoul(f.at(4)) : 0;
+    std::size_t big = heavy ? std::stoul(f.at(3)) * (mb * 1048576 + 64) : 0;
+    RacyBuf buf(heavy ? big + std::stoul(f.at(2)) * HEAVY_SMALL * 16 + 4096 : 1 << 22, heavy ? mb * 1048576 + 4096 : 1 << 16);
     std::streambuf* old = os.rdbuf(&buf);
     std::string result;
     auto log = [&](int sev, const std::string& s) {
@@ -290,6 +365,28 @@ static std::string handle(const std::vector<std::string>& f)
         b.join();
         result = std::string("parked=") + (a_parked ? "1" : "0") + " blocked=" + (entered ? "0" : "1") +
                  " concurrent=" + (buf.max_inside.load() > 1 ? "1" : "0");
+    }
+    else if (heavy)
+    {
+        int n = std::stoi(f.at(2)), r = std::stoi(f.at(3));
+        unsigned seed = static_cast<unsigned>(std::stoul(f.at(5)));
+        buf.yield_every = 257 + 2 * (seed % 128); // a few yields inside every 4 KiB
+        std::atomic<int> go{ 0 };
+        std::vector<std::thread> ts;
+        for (int t = 0; t < n; t++)
+            ts.emplace_back([&, t] {
+                ++go;
+                while (go < n)
+                    std::this_thread::yield();
+                int count = t == 0 ? r : HEAVY_SMALL;
+                for (int k = 0; k < count; k++)
+                    log(2, heavy_text(t, k, mb));
+            });
+        for (auto& t : ts)
+            t.join();
+        buf.pubsync();
+        std::string out(buf.data.data(), buf.pos);
+        result = heavy_verdict(n, r, mb, out, buf.max_inside.load() > 1);
     }
     else
     {
